@@ -77,3 +77,8 @@ func (r *rng) perm(n int) []int {
 	}
 	return p
 }
+
+func readFileString(path string) (string, error) {
+	b, err := os.ReadFile(path)
+	return string(b), err
+}
